@@ -345,6 +345,12 @@ func ruleFailBranchStatus(r *Run, rule, fnKey, gate, owner string) {
 // C07
 
 func rulesC07(r *Run) {
+	defer func() {
+		// R6 (D35): a continuous-check failure that was durable at a crash is not forgotten by recovery
+		r.Kind("R6", "K2")
+		ruleFixVerdictSticky(r, "R6", smKey("fixPlan"), "workflow.Plan")
+		r.Expect("R6", 1)
+	}()
 	r.Kind("R1", "K3")
 	ruleRunContChecks(r, "R1")
 	r.Expect("R1", 3)
@@ -446,8 +452,8 @@ func ruleRunContChecks(r *Run, rule string) {
 		r.Unresolved(rule, "runContChecks channel parameter")
 		return
 	}
-	badSend, badStop, badClose := "", "", ""
-	var pS, pT, pC token.Pos = fn.Decl.Pos(), fn.Decl.Pos(), fn.Decl.Pos()
+	badSend, badStop, badClose, badWait := "", "", "", ""
+	var pS, pT, pC, pW token.Pos = fn.Decl.Pos(), fn.Decl.Pos(), fn.Decl.Pos(), fn.Decl.Pos()
 	nRuns := 0
 	for i := range paths {
 		p := &paths[i]
@@ -469,27 +475,57 @@ func ruleRunContChecks(r *Run, rule string) {
 			}
 			nRuns++
 			u := UseOfResult(fl, p, ci)
-			// the next event that is a send on the channel, a further run, or a return
-			sent := false
+			// the sends of this run's result before a further run or a return; a send that is one case of a
+			// select with other cases (a default, ctx.Done()) may not happen and does not count as delivery
+			sentPlain, sentMaybe := false, false
 			for j := ci + 1; j < len(p.Ev); j++ {
 				x := p.Ev[j]
 				if x.Kind == EvSend && ObjOf(info, x.Chan) == chObj {
-					if u.Var != nil && len(x.Rhs) == 1 && ObjOf(info, x.Rhs[0]) == u.Var {
-						sent = true
-					} else if u.Kind == "nested" {
-						sent = true // resultCh <- s.runChecksOnce(...)
+					isRes := (u.Var != nil && len(x.Rhs) == 1 && ObjOf(info, x.Rhs[0]) == u.Var) || u.Kind == "nested" ||
+						(u.Verdict == "nil" && len(x.Rhs) == 1 && ValueKey(info, x.Rhs[0]) == "nil")
+					if isRes {
+						if selectSend(fn.Decl.Body, p, j) {
+							sentMaybe = true
+						} else {
+							sentPlain = true
+						}
 					}
-					break
+					continue
 				}
 				if IsCall(x, smKey("runChecksOnce")) || (x.Kind == EvReturn && !x.Deferred) {
 					break
 				}
 			}
-			if !sent && badSend == "" {
-				badSend, pS = "the result of a continuous-check run is not sent on the result channel before the next run or return: a failure would be lost", e.Pos
+			_ = sentMaybe
+			switch u.Verdict {
+			case "nil":
+				// a pass may be dropped, but it must never wait for a reader (D34): results are read only when a
+				// sequence is launched and when the scope ends, so a waiting send stops the re-runs for the
+				// length of a sequence
+				if sentPlain && badWait == "" {
+					badWait, pW = "a passing result is sent with a send that waits for a reader: once the one-slot channel is full the checks are not re-run until somebody polls (a long sequence is not watched at all)", e.Pos
+				}
+			default:
+				if !sentPlain && badSend == "" {
+					badSend, pS = "the result of a failed continuous-check run is not sent (with a send that cannot be skipped) on the result channel before the next run or return: a failure would be lost", e.Pos
+				}
 			}
 			if u.Verdict == "nonnil" {
-				if FirstAfter(p, u.At, func(x Event) bool { return IsCall(x, smKey("runChecksOnce")) }) >= 0 && badStop == "" {
+				// the path goes round the loop again after a failed run: an event of the loop body that lies before
+				// the run (path enumeration need not reach the second run itself)
+				looped := false
+				if lp := innermostLoop(fn.Decl.Body, e.Pos); lp != nil {
+					for j := ci + 1; j < len(p.Ev); j++ {
+						x := p.Ev[j]
+						if x.Deferred || x.Depth > 0 || !x.Pos.IsValid() {
+							continue
+						}
+						if x.Pos >= lp.Pos() && r.P.Fset.Position(x.Pos).Line < r.P.Fset.Position(e.Pos).Line {
+							looped = true
+						}
+					}
+				}
+				if (looped || FirstAfter(p, u.At, func(x Event) bool { return IsCall(x, smKey("runChecksOnce")) }) >= 0) && badStop == "" {
 					badStop, pT = "runContChecks keeps running after a failed run (the failure element may be overwritten by later successes in a one-slot channel)", e.Pos
 				}
 			}
@@ -504,7 +540,8 @@ func ruleRunContChecks(r *Run, rule string) {
 		r.Unresolved(rule, "runContChecks calls runChecksOnce")
 		return
 	}
-	r.Check(rule, "runContChecks:every-result-sent", pS, badSend == "", "%s", orOK(badSend, "each run's result is sent before the next run/return"))
+	r.Check(rule, "runContChecks:every-result-sent", pS, badSend == "", "%s", orOK(badSend, "each failed run's result is sent, unconditionally, before the next run/return"))
+	r.Check(rule, "runContChecks:pass-never-waits-for-reader", pW, badWait == "", "%s", orOK(badWait, "a passing result is dropped rather than waited on"))
 	r.Check(rule, "runContChecks:stops-at-failure", pT, badStop == "", "%s", orOK(badStop, "a failed run ends the loop"))
 	r.Check(rule, "runContChecks:closes-channel", pC, badClose == "", "%s", orOK(badClose, "closed on every exit"))
 }
@@ -1670,6 +1707,12 @@ func ruleGateRunsContChecks(r *Run, rule, fnKey, owner string) {
 				return "cont-absent", op == token.NEQ, true
 			}
 		}
+		if neg, ok := EqAtom(info, e, func(x ast.Expr) bool {
+			b, m := FieldPath(info, x, "workflow.Checks", "State", "Status")
+			return m && isPre(ast.Unparen(b))
+		}, "workflow.Completed"); ok {
+			return "pre-completed", neg, true
+		}
 		if c, ok := ast.Unparen(e).(*ast.CallExpr); ok && len(c.Args) == 1 && CallAtom(info, e, pkgSM+".skipRecoveredChecks") {
 			// true exactly for a nil group (obligation skipRecoveredChecks:true-only-for-absent-group)
 			switch {
@@ -1698,54 +1741,61 @@ func ruleGateRunsContChecks(r *Run, rule, fnKey, owner string) {
 		})
 		return found
 	}
-	asg := map[string]bool{"pre-absent": true, "cont-absent": false}
-	bad := ""
-	var bpos token.Pos = fn.Decl.Pos()
-	nRun, nPossible := 0, 0
-	for i := range paths {
-		p := &paths[i]
-		if p.Exit != ExitReturn {
-			continue
-		}
-		if PathRefuted(fl, p, -1, asg, atom) {
-			continue
-		}
-		nPossible++
-		ran := false
-		for _, e := range p.Ev {
-			if e.Kind != EvCall || e.Call == nil || e.Deferred {
+	decide := func(asg map[string]bool, key, situation, consequence string) {
+		bad := ""
+		var bpos token.Pos = fn.Decl.Pos()
+		nRun, nPossible := 0, 0
+		for i := range paths {
+			p := &paths[i]
+			if p.Exit != ExitReturn {
 				continue
 			}
-			switch {
-			case IsCall(e, smKey("runChecksOnce")) && runsOn(e.Call):
-				ran = true
-			case IsCall(e, keyGroupGo):
-				if l := LitArg(e.Call); l != nil && runsOn(l) {
-					ran = true
-				}
-			case IsCall(e, smKey("runPreChecks")) && !e.Inlined && len(e.Call.Args) == 3 && isCont(ast.Unparen(e.Call.Args[2])):
-				ran = true // not expanded here: runPreChecks' own obligations (groupResultReturned, join) decide what it does with its third argument
+			if PathRefuted(fl, p, -1, asg, atom) {
+				continue
 			}
-		}
-		if ran {
-			nRun++
-		} else if bad == "" {
-			bad = short + " can be passed (successor " + nextOf(fl, p) + ", exit guard " + ExitGuardKey(fl, p) + ") by a scope that has ContChecks but no PreChecks without the ContChecks having run once: its sequences would start before the continuous checks ever passed"
+			nPossible++
+			ran := false
 			for _, e := range p.Ev {
-				if e.Kind == EvReturn && !e.Deferred && e.Depth == 0 {
-					bpos = e.Pos
+				if e.Kind != EvCall || e.Call == nil || e.Deferred {
+					continue
+				}
+				switch {
+				case IsCall(e, smKey("runChecksOnce")) && runsOn(e.Call):
+					ran = true
+				case IsCall(e, keyGroupGo):
+					if l := LitArg(e.Call); l != nil && runsOn(l) {
+						ran = true
+					}
+				case IsCall(e, smKey("runPreChecks")) && !e.Inlined && len(e.Call.Args) == 3 && isCont(ast.Unparen(e.Call.Args[2])):
+					ran = true // not expanded here: runPreChecks' own obligations (groupResultReturned, join) decide what it does with its third argument
+				}
+			}
+			if ran {
+				nRun++
+			} else if bad == "" {
+				bad = short + " can be passed (successor " + nextOf(fl, p) + ", exit guard " + ExitGuardKey(fl, p) + ") by " + situation + " without the ContChecks having run once: " + consequence
+				for _, e := range p.Ev {
+					if e.Kind == EvReturn && !e.Deferred && e.Depth == 0 {
+						bpos = e.Pos
+					}
 				}
 			}
 		}
+		if nPossible == 0 {
+			r.Unresolved(rule, short+" has a returning path for "+situation)
+			return
+		}
+		if nRun == 0 && bad == "" {
+			bad = short + " never runs the ContChecks"
+		}
+		r.Check(rule, short+":"+key, bpos, bad == "", "%s", orOK(bad, situation+" ⇒ every exit ran the ContChecks once"))
 	}
-	if nPossible == 0 {
-		r.Unresolved(rule, short+" has a returning path for a scope with ContChecks and no PreChecks")
-		return
-	}
-	if nRun == 0 && bad == "" {
-		bad = short + " never runs the ContChecks"
-	}
-	r.Check(rule, short+":cont-only-scope-is-gated", bpos, bad == "", "%s", orOK(bad, "PreChecks absent ∧ ContChecks present ⇒ every exit ran the ContChecks once"))
+	decide(map[string]bool{"pre-absent": true, "cont-absent": false}, "cont-only-scope-is-gated",
+		"a scope that has ContChecks but no PreChecks", "its sequences would start before the continuous checks ever passed")
+	// D32: after a restart the PreChecks of a scope can already be Completed while the first run of its ContChecks
+	// was lost with the crash; the gate must run them all the same
+	decide(map[string]bool{"pre-absent": false, "cont-absent": false, "pre-completed": true}, "recovered-scope-is-gated",
+		"a recovered scope whose PreChecks are already Completed and that has ContChecks", "after a crash between the PreChecks and the first run of the ContChecks the sequences of a scope whose ContChecks fail would run")
 }
 
 // ruleRepairThenClassify (round-3 seed C03-6): a recovery function that walks its children, repairs each
@@ -1864,4 +1914,127 @@ func ruleRepairThenClassifyAll(r *Run, rule string) {
 	ruleRepairThenClassify(r, rule, smKey("fixPlan"), smKey("fixBlock"), "workflow.Block")
 	ruleRepairThenClassify(r, rule, smKey("fixBlock"), pkgSM+".fixSeq", "workflow.Sequence")
 	ruleRepairThenClassify(r, rule, pkgSM+".fixSeq", pkgSM+".fixAction", "workflow.Action")
+}
+
+// selectSend: the send event p.Ev[j] is the communication of a select case, and that select has other cases.
+func selectSend(body ast.Node, p *Path, j int) bool {
+	node := p.Ev[j].Node
+	if node == nil {
+		return false
+	}
+	in := false
+	ast.Inspect(body, func(n ast.Node) bool {
+		sel, ok := n.(*ast.SelectStmt)
+		if !ok {
+			return true
+		}
+		for _, c := range sel.Body.List {
+			if cc := c.(*ast.CommClause); cc.Comm != nil && cc.Comm == node && len(sel.Body.List) > 1 {
+				in = true
+			}
+		}
+		return !in
+	})
+	return in
+}
+
+// ruleFixVerdictSticky (D35): once a recovery function has decided that its subject failed (or was stopped), nothing
+// later on the same path may give the subject another status. fixPlan marked the plan Failed for failed ContChecks,
+// carried on, and reset it to NotStarted when no block had made progress: the failure was forgotten and the plan ran
+// again from the start.
+func ruleFixVerdictSticky(r *Run, rule, fnKey, owner string) {
+	fn := r.fnByKey(rule, fnKey)
+	if fn == nil {
+		return
+	}
+	fl, paths, ok := r.flowPaths(rule, fn)
+	if !ok {
+		return
+	}
+	paths = fl.OwnCode(paths)
+	info := fl.Info
+	var subj types.Object
+	if ps := fn.Decl.Type.Params; ps != nil && len(ps.List) >= 1 && len(ps.List[len(ps.List)-1].Names) == 1 {
+		subj = info.ObjectOf(ps.List[len(ps.List)-1].Names[0])
+	}
+	if subj == nil {
+		r.Unresolved(rule, ShortFn(fnKey)+" subject parameter")
+		return
+	}
+	bad := ""
+	var bpos token.Pos = fn.Decl.Pos()
+	n := 0
+	for i := range paths {
+		p := &paths[i]
+		if p.Exit != ExitReturn {
+			continue
+		}
+		verdict := ""
+		isSubjStatus := func(x ast.Expr) bool {
+			b, m := FieldPath(info, x, owner, "State", "Status")
+			return m && ObjOf(info, ast.Unparen(b)) == subj
+		}
+		infeasible := false
+		for _, e := range p.Ev {
+			if e.Kind == EvBranch && verdict != "" {
+				// the path tests the status it has just assigned: only the agreeing direction is possible (the
+				// callees in between repair children, never the subject's own status — C09-R2)
+				for _, l := range EventLiterals(info, e) {
+					if isSubjStatus(l.X) && strings.HasPrefix(l.Val, "workflow.") && (l.Val == verdict) != l.Eq {
+						infeasible = true
+					}
+				}
+			}
+			if infeasible {
+				break
+			}
+			if e.Kind != EvAssign || len(e.Lhs) != len(e.Rhs) {
+				continue
+			}
+			for k, l := range e.Lhs {
+				if !isSubjStatus(l) {
+					continue
+				}
+				v := ValueKey(info, e.Rhs[k])
+				n++
+				if verdict != "" && v != "workflow.Failed" && v != "workflow.Stopped" && bad == "" {
+					bad = "a path sets the status of the subject to " + strings.TrimPrefix(verdict, "workflow.") + " and later to " + orOK(strings.TrimPrefix(v, "workflow."), ExprStr(e.Rhs[k])) + " (exit guard " + ExitGuardKey(fl, p) + "): a failure recovery had already established is forgotten"
+					bpos = e.Pos
+				}
+				if v == "workflow.Failed" || v == "workflow.Stopped" {
+					verdict = v
+				}
+			}
+		}
+	}
+	if n == 0 {
+		r.Unresolved(rule, ShortFn(fnKey)+" assigns a status to its subject")
+		return
+	}
+	r.Check(rule, ShortFn(fnKey)+":failure-verdict-not-overwritten", bpos, bad == "", "%s", orOK(bad, "Failed/Stopped, once assigned, is final on every path"))
+}
+
+func ruleFixVerdictStickyAll(r *Run, rule string) {
+	ruleFixVerdictSticky(r, rule, smKey("fixPlan"), "workflow.Plan")
+	ruleFixVerdictSticky(r, rule, smKey("fixBlock"), "workflow.Block")
+	ruleFixVerdictSticky(r, rule, pkgSM+".fixSeq", "workflow.Sequence")
+}
+
+// innermostLoop: the innermost for/range statement of body that contains pos.
+func innermostLoop(body ast.Node, pos token.Pos) ast.Stmt {
+	var out ast.Stmt
+	ast.Inspect(body, func(n ast.Node) bool {
+		switch l := n.(type) {
+		case *ast.ForStmt:
+			if l.Pos() <= pos && pos <= l.End() {
+				out = l
+			}
+		case *ast.RangeStmt:
+			if l.Pos() <= pos && pos <= l.End() {
+				out = l
+			}
+		}
+		return true
+	})
+	return out
 }
